@@ -2,6 +2,12 @@ package main
 
 // Per-property scenario generators (one run index -> one or more scenarios).
 
+import (
+	"math/rand/v2"
+	"sort"
+	"time"
+)
+
 func one(sc *Scenario) []*Scenario { return []*Scenario{sc} }
 
 func init() {
@@ -16,6 +22,26 @@ func init() {
 			corrupt: 1, faultKinds: []string{"drop_resp", "cut_resp_at", "flip_req", "cut_req_at", "stall"}}
 		sc := genW1("C02", seed, p)
 		forceDelete(sc, seed)
+		if seed%6 == 5 && len(sc.Files) > 0 {
+			// confirmed but not yet deleted (delete delay), and then a NEW version
+			// appears under the name that is too young for the scanner to return
+			g := &gen{r: rand.New(rand.NewPCG(seed, 0x2c))}
+			sc.Send.MinAge = g.dur(30*time.Second, 60*time.Second, 2*time.Minute)
+			for i := range sc.Send.Tags {
+				sc.Send.Tags[i].Delete, sc.Send.Tags[i].DeleteSet = true, true
+				sc.Send.Tags[i].DeleteDelay = g.dur(time.Minute, 3*time.Minute, 5*time.Minute)
+			}
+			for i := range sc.Files {
+				if sc.Files[i].Age < int64(sc.Send.MinAge/time.Second)+5 {
+					sc.Files[i].Age = int64(sc.Send.MinAge/time.Second) + 5 + int64(g.n(600))
+				}
+			}
+			for k := 0; k < 1+g.n(2); k++ {
+				f := sc.Files[g.n(len(sc.Files))]
+				sc.Env = append(sc.Env, &envAction{Kind: "replace", At: time.Duration(15+g.n(120)) * time.Second, Name: f.Name, Size: int64(1 + g.n(2000)), Seed: g.u64(), Age: int64(g.n(5))})
+			}
+			sort.SliceStable(sc.Env, func(i, j int) bool { return sc.Env[i].At < sc.Env[j].At })
+		}
 		return one(sc)
 	}
 	generators["C03"] = func(seed uint64, tier string) []*Scenario {
@@ -26,6 +52,9 @@ func init() {
 	generators["C05"] = func(seed uint64, tier string) []*Scenario {
 		if (tier == "quick" && seed%100 == 7) || (tier != "quick" && seed%25 == 7) {
 			return one(genC05Age(seed)) // delivery known only from the log after cache ageing (W2)
+		}
+		if seed%10 == 3 {
+			return one(genC05Restart(seed)) // retransmissions after a receiver restart (W2)
 		}
 		p := profile{maxFiles: 6, maxFaults: 5, orders: true, deletes: false, fineNet: true, hotGates: true, recvCrashes: 1, sendCrashes: 1, smallPoll: true,
 			faultKinds: []string{"drop_resp", "drop_resp", "cut_resp_at", "stall", "cut_after_recorded"}}
